@@ -125,3 +125,90 @@ Print Assumptions C10_decoder_entry_bounded.
 Theorem C10_own_output_dispatch : forall w, header_dispatch (serialize_wire w) = Ok (DDecode (encode (wire_tree w))).
 Proof. exact own_output_dispatch. Qed.
 Print Assumptions C10_own_output_dispatch.
+
+(* ------------------------------------------------------------------ codec-level half of 'corrupt data
+   fails cleanly': determinism along an encoding, every strict prefix of a valid payload / buffer
+   fails to decode and leaves the engine as it was, trailing bytes are ignored (rmp's from_slice
+   never checks for the end), fuel is no artefact *)
+From Adb Require Import Base Generated Wire_Model C10_Model Msgpack_Model Msgpack_Proofs.
+From Adb Require Import C08_Model C08_Query_Model C08_Engine_Model C08_Proofs C08_Query_Proofs Msgpack_C08_Proofs.
+
+Theorem C10_msgpack_decode_unique :
+  forall (t : mp) (fuel : nat) (rest : list N) (t' : mp) (rest' : list N),
+  mp_wf t = true -> decode_mp fuel (encode t ++ rest) = Some (t', rest') -> t' = t /\ rest' = rest.
+Proof. exact decode_encode_unique. Qed.
+Print Assumptions C10_msgpack_decode_unique.
+
+Theorem C10_msgpack_strict_prefix_fails :
+  forall (t : mp) (p : list N),
+  mp_wf t = true -> strict_prefix p (encode t) -> forall fuel : nat, decode_mp fuel p = None.
+Proof. exact decode_strict_prefix. Qed.
+Print Assumptions C10_msgpack_strict_prefix_fails.
+
+Theorem C10_msgpack_decode_all_strict_prefix :
+  forall (t : mp) (p : list N), mp_wf t = true -> strict_prefix p (encode t) -> decode_all p = None.
+Proof. exact decode_all_strict_prefix. Qed.
+Print Assumptions C10_msgpack_decode_all_strict_prefix.
+
+Theorem C10_msgpack_decode_suffix :
+  forall (fuel : nat) (b : list N) (t : mp) (r : list N),
+  decode_mp fuel b = Some (t, r) -> exists used : list N, b = used ++ r /\ used <> [].
+Proof. exact decode_suffix. Qed.
+Print Assumptions C10_msgpack_decode_suffix.
+
+Theorem C10_msgpack_fuel_mono :
+  forall (f f' : nat) (b : list N) (x : mp * list N),
+  decode_mp f b = Some x -> (f <= f')%nat -> decode_mp f' b = Some x.
+Proof. exact decode_fuel_mono. Qed.
+Print Assumptions C10_msgpack_fuel_mono.
+
+Theorem C10_msgpack_fuel_enough :
+  forall (fuel : nat) (b : list N) (t : mp) (r : list N),
+  decode_mp fuel b = Some (t, r) -> decode_mp (fuel_for b) b = Some (t, r).
+Proof. exact decode_fuel_enough. Qed.
+Print Assumptions C10_msgpack_fuel_enough.
+
+Theorem C10_decode_wire_bytes_own :
+  forall w : wire, wire_fits w = true -> decode_wire_bytes (serialize_wire w) = Some w.
+Proof. exact decode_wire_bytes_own. Qed.
+Print Assumptions C10_decode_wire_bytes_own.
+
+Theorem C10_decode_wire_bytes_truncated :
+  forall (w : wire) (p : list N),
+  wire_fits w = true -> strict_prefix p (serialize_wire w) -> decode_wire_bytes p = None.
+Proof. exact decode_wire_bytes_truncated. Qed.
+Print Assumptions C10_decode_wire_bytes_truncated.
+
+Theorem C10_deserialize_own :
+  forall (build_list : list rule -> bool -> bucket_map) (e : engine) (w : wire),
+  wire_fits w = true ->
+  deserialize decode_wire build_list e (serialize_wire w) = Ok (install build_list e w, None).
+Proof. exact deserialize_own. Qed.
+Print Assumptions C10_deserialize_own.
+
+Theorem C10_deserialize_trailing :
+  forall (build_list : list rule -> bool -> bucket_map) (e : engine) (w : wire) (junk : list N),
+  wire_fits w = true ->
+  deserialize decode_wire build_list e (serialize_wire w ++ junk) = Ok (install build_list e w, None).
+Proof. exact deserialize_trailing. Qed.
+Print Assumptions C10_deserialize_trailing.
+
+Theorem C10_deserialize_truncated :
+  forall (build_list : list rule -> bool -> bucket_map) (e : engine) (w : wire) (p : list N),
+  wire_fits w = true ->
+  strict_prefix p (serialize_wire w) ->
+  deserialize decode_wire build_list e p = Ok (e, Some ENoHeader) \/
+  deserialize decode_wire build_list e p = Ok (e, Some ERmp).
+Proof. exact deserialize_truncated. Qed.
+Print Assumptions C10_deserialize_truncated.
+
+Theorem C10_engine_deserialize_truncated :
+  forall (as_css : str -> option (str * str)) (build_list : list rule -> bool -> bucket_map)
+    (l e : full_engine) (p : list N),
+  wire_fits (fe_wire as_css e) = true ->
+  strict_prefix p (fe_serialize as_css e) ->
+  fe_deserialize build_list decode_wire l p = Ok (l, Some ENoHeader) \/
+  fe_deserialize build_list decode_wire l p = Ok (l, Some ERmp).
+Proof. exact engine_deserialize_truncated. Qed.
+Print Assumptions C10_engine_deserialize_truncated.
+
